@@ -23,6 +23,7 @@ import tempfile
 import torch
 
 from ..accum import GRAD_LEAVES, Stepper, event_json, random_history
+from ..autojac_replay import fmap
 from ..core import Ctx, MachineryError
 from ..par import pmap
 from ..tlc import run_tlc
@@ -51,11 +52,11 @@ def replay_history(item) -> list[dict]:
             msgs.append(f"raised {obs['exc']}")
         else:
             for li, l in enumerate(GRAD_LEAVES):
-                e = exp["grad"][li]
+                e = exp["grad"][l]
                 e = None if e == [] else [float(x) for x in e]
                 if obs["grad"][l] != e:
                     msgs.append(f"leaf {l}: .grad {obs['grad'][l]} != {e}")
-                exp_same = exp["store"][li] == prev["store"][li]
+                exp_same = exp["store"][l] == prev["store"][l]
                 if obs["same"][l] != exp_same:
                     msgs.append(f"leaf {l}: memory behind .grad {'kept' if obs['same'][l] else 'changed'}, "
                                 f"model says {'in place' if exp_same else 'fresh/none'}")
@@ -74,7 +75,7 @@ def record_episode(item):
     seed, idx = item
     static = _STATE["static"]
     rng = random.Random(seed * 977 + idx)
-    pre = rng.choice([[], [1, 2, 3, 4, 5], [1, 5], [4]])
+    pre = rng.choice([[], list(GRAD_LEAVES), [1, 5, 14], [4]])
     st = Stepper(static, pre, rng)
     events, raw = [], []
     for ev in random_history(rng, static, 12):
@@ -144,7 +145,7 @@ def run(ctx: Ctx, replay: str | None) -> None:
     static = res.prints["STATIC"][0]
     hists = res.prints["HIST"]
     maxlen = 3 if quick else 4
-    table = {_hkey(h["pre"], h["hist"]): {"grad": h["grad"], "store": h["store"]} for h in hists}
+    table = {_hkey(h["pre"], h["hist"]): {"grad": fmap(h["grad"]), "store": fmap(h["store"])} for h in hists}
     _STATE["static"], _STATE["table"] = static, table
     if replay:
         rec = json.load(open(replay))
